@@ -267,7 +267,10 @@ func compileDel(cp *compiler, fn *parse.Form) effectOp {
 type delLocalVarOp struct{ index int }
 
 func (op delLocalVarOp) exec(fm *Frame) Exception {
-	fm.local.slots[op.index] = nil
+	// The compiler has marked the name as deleted, which is what makes the
+	// variable inaccessible. The slot itself is left alone: for top-level code
+	// the slots are shared with the Evaler's global namespace, which other
+	// goroutines may be reading concurrently.
 	return nil
 }
 
